@@ -1,5 +1,6 @@
 import Driver.JsonIO
 import RulioModel.Match
+import RulioModel.MatchIneq
 import RulioModel.MatchSpec
 import Driver.Loc
 import Driver.Pidx
@@ -30,21 +31,40 @@ def errName : MErr → String
   | .multiVar => "multiVar"
   | .nonGround => "nonGround"
 
+/-- C05: a pattern whose maps are written as `{"o":[[k,v],…]}` (arrays as `{"a":[…]}`), so that the caller
+chooses the order of the key/value pairs the model walks through (Lean's `Json.obj` is sorted by key) -/
+partial def ofOrdered : Json → Except String J
+  | .obj kvs =>
+    match kvs.toList with
+    | [("o", .arr ps)] => do
+      let ys ← ps.toList.mapM (fun kv => match kv with
+        | .arr #[.str k, v] => do let v' ← ofOrdered v; pure (k, v')
+        | _ => .error "ordered:pair")
+      pure (.obj ys)
+    | [("a", .arr xs)] => do let ys ← xs.toList.mapM ofOrdered; pure (.arr ys)
+    | _ => .error "ordered:obj"
+  | .arr _ => .error "ordered:arr"
+  | j => J.ofJson j
+
 def doMatch (c : Json) : Json :=
   match (do
-    let p ← jJ c "p"; let d ← jJ c "d"; let b ← jJ c "bs"
+    let p ← if jhas c "po" then ofOrdered (jget c "po") else jJ c "p"
+    let d ← jJ c "d"; let b ← jJ c "bs"
     let bs : Bs := match b with | .obj kvs => kvs | _ => []
     pure (p, d, bs) : Except String (J × J × Bs)) with
   | .error e => Json.mkObj [("err", Json.str ("input:" ++ e))]
   | .ok (p, d, bs) =>
-    let frag := patOK p && dataOK d && bs.all (fun kv => kv.2.ground)
+    -- inequality variables (`RulioModel/MatchIneq.lean`) are unknown to the specification: outside the fragment
+    let ineq := !noIneqVars p
+    let frag := patOK p && dataOK d && bs.all (fun kv => kv.2.ground) && !ineq
     let nvars := (varsOf p).length   -- occurrences: scalarRepeats renames them apart
     -- the brute-force spec is exponential in the number of variables: only evaluated on small cases
     let small := nvars ≤ 4 && ((dedupJ (subvalues d)).length + 1) ^ nvars ≤ 20000
     let rep := if small then scalarRepeats p d bs else false
-    let extra := [("frag", Json.bool frag), ("small", Json.bool small), ("rep", Json.bool rep)] ++
+    let extra := [("frag", Json.bool frag), ("small", Json.bool small), ("rep", Json.bool rep), ("ineq", Json.bool ineq)] ++
       (if small && frag then [("spec", Json.arr ((specMatch p d bs).map bsToJson).toArray)] else [])
-    match matchJ p d bs with
+    -- the model output is the faithful matcher `matchJI` (= `matchJ` when `ineq` is false: `ineq_conservative`)
+    match matchJI p d bs with
     | .error e => Json.mkObj ([("err", Json.str (errName e))] ++ extra)
     | .ok bss => Json.mkObj ([("bss", Json.arr (bss.map bsToJson).toArray)] ++ extra)
 
